@@ -444,13 +444,16 @@ class Worker(object):
         # set the task environment
         old_env = os.environ.copy()
 
-        for k, v in task['description'].get('environment', {}).items():
-            os.environ[k] = str(v)
-
         try:
             # redirect stdio to capture them during execution
             sys.stdout = strout = io.StringIO()
             sys.stderr = strerr = io.StringIO()
+
+            # set the task environment - within the `try`, so that a setting
+            # the OS refuses is reported as failure and all settings made so
+            # far are rolled back
+            for k, v in task['description'].get('environment', {}).items():
+                os.environ[k] = str(v)
 
             self._prof.prof('rank_start', uid=uid)
             self._log.debug('to call %s: %s : %s', to_call, args, kwargs)
@@ -518,13 +521,16 @@ class Worker(object):
 
         old_env = os.environ.copy()
 
-        for k, v in task['description'].get('environment', {}).items():
-            os.environ[k] = str(v)
-
         try:
             # redirect stdio to capture them during execution
             sys.stdout = strout = io.StringIO()
             sys.stderr = strerr = io.StringIO()
+
+            # set the task environment - within the `try`, so that a setting
+            # the OS refuses is reported as failure and all settings made so
+            # far are rolled back
+            for k, v in task['description'].get('environment', {}).items():
+                os.environ[k] = str(v)
 
             self._log.debug('eval [%s] [%s]', code, task['uid'])
 
@@ -574,13 +580,16 @@ class Worker(object):
 
         old_env = os.environ.copy()
 
-        for k, v in task['description'].get('environment', {}).items():
-            os.environ[k] = str(v)
-
         try:
             # redirect stdio to capture them during execution
             sys.stdout = strout = io.StringIO()
             sys.stderr = strerr = io.StringIO()
+
+            # set the task environment - within the `try`, so that a setting
+            # the OS refuses is reported as failure and all settings made so
+            # far are rolled back
+            for k, v in task['description'].get('environment', {}).items():
+                os.environ[k] = str(v)
 
             uid  = task['uid']
             pre  = task['description'].get('pre_exec', [])
